@@ -14,6 +14,16 @@ RULES = [
     ('C03', [r'^EvalStack', r'^lemma:push a; push b']),
     ('C07', [r'^Machine\._color_matrix_light\[.* lacks the capability']),
     ('C08', [r'^Settings\.']),
+    ('C11', [r'^Context\.clear', r'^ScriptJob\.load_', r'^Parser\.parse\[', r'^lemma:parse\(t1\)']),
+    ('C12', [r'^ColorMatrix\._standardize_raw', r'^lemma:repeat 0 ', r'^lemma:repeat n with v cycle']),
+    ('C13', [r'^lemma:two requests through the same wrapper']),
+    ('C17', [r'^lemma:two requests through the same wrapper']),
+    ('C14', [r'^Machine\._color_default']),
+    ('C15', [r'^CallStack\.enter_loop', r'^CallStack\.put_variable', r'^lemma:two requests through the same wrapper']),
+    ('C20', [r'^Light\.get_color', r'^Light\.get_power']),
+    ('C15', [r'^round$']),
+    ('C19', [r'^VmMath\.logical_op', r'^cycle$', r'^round$']),
+    ('C17', [r'^cycle$']),
 ]
 for pid, pats in RULES:
     for c in spec.REGISTRY:
